@@ -253,6 +253,20 @@ fn cut_cases_random(em: &mut Emitter, n: usize) {
         if rng.chance(1, 6) { edges.push(i32::MAX) }
         edges.sort();
         edges.dedup();
+        // outside the property's quantifier (the model is still the code: first match wins, theorem
+        // C14_cut_first_match): a repeated edge, or the edges in arbitrary order
+        let mut shape = "asc";
+        if edges.len() >= 2 && rng.chance(1, 8) {
+            let i = rng.below(edges.len() - 1);
+            edges[i + 1] = edges[i];
+            shape = "repeated";
+        } else if edges.len() >= 2 && rng.chance(1, 7) {
+            for i in (1..edges.len()).rev() {
+                let j = rng.below(i + 1);
+                edges.swap(i, j);
+            }
+            shape = "unsorted";
+        }
         let ab = rng.chance(1, 2);
         let right = rng.chance(1, 2);
         if !ab && edges.is_empty() { continue }
@@ -273,8 +287,8 @@ fn cut_cases_random(em: &mut Emitter, n: usize) {
         let bins_o: Vec<Option<i32>> = edges.iter().map(|x| Some(*x)).collect();
         let labels_o: Vec<Option<i32>> = (0..nlab as i32).map(|j| Some(100 + j)).collect();
         let tags = format!(
-            "fn=vcut ty=opt_i32 lty=opt_i32 alpha=random nedges={} nlab={} right={} bounds={} count=ok len={}{}",
-            edges.len(), nlab, right, ab, len, if len == 0 { " nt=0" } else { "" }
+            "fn=vcut ty=opt_i32 lty=opt_i32 alpha=random edges={} nedges={} nlab={} right={} bounds={} count=ok len={}{}",
+            shape, edges.len(), nlab, right, ab, len, if len == 0 { " nt=0" } else { "" }
         );
         let desc = format!(
             "fn=vcut ty=Option<i32> labels=Option<i32>x{} right={} add_bounds={} edges={:?} values={:?}",
@@ -341,12 +355,16 @@ fn uniq_tags(ty: &str, be: &str, xs: &[Option<i64>]) -> String {
 }
 
 /// emit the cases of one abstract series (values are small integer codes; None = null)
-fn uniq_emit(em: &mut Emitter, xs: &[Option<i64>], scale_i32: &dyn Fn(i64) -> i32, scale_f64: &dyn Fn(i64) -> f64, k: usize) {
+/// `share_f`: the f64 series holds the same (integer) values as the i32 one and is compared with the same
+/// model term (an integer cell equals an integral float cell) - halves the number of model evaluations of the
+/// exhaustive part; the PrimFloat instance of the model is exercised by the non-shared cases
+fn uniq_emit(em: &mut Emitter, xs: &[Option<i64>], scale_i32: &dyn Fn(i64) -> i32, scale_f64: &dyn Fn(i64) -> f64, k: usize, share_f: bool) {
     let has_null = xs.iter().any(|x| x.is_none());
     let vi: Vec<Option<i32>> = xs.iter().map(|x| x.map(scale_i32)).collect();
-    let vf: Vec<f64> = xs.iter().map(|x| x.map(scale_f64).unwrap_or(f64::NAN)).collect();
+    let vf: Vec<f64> = if share_f { vi.iter().map(|x| x.map(|v| v as f64).unwrap_or(f64::NAN)).collect() }
+        else { xs.iter().map(|x| x.map(scale_f64).unwrap_or(f64::NAN)).collect() };
     let term_z = || format!("(run_uniq_z {})", coq_list(&vi, |x| coq_opt(x, |v| cz(*v))));
-    let term_f = || format!("(run_uniq_f {})", coq_list(&vf, |x| coq_optf(*x)));
+    let term_f = || if share_f { term_z() } else { format!("(run_uniq_f {})", coq_list(&vf, |x| coq_optf(*x))) };
     let desc = |ty: &str, be: &str, s: String| format!("fn=vsorted_unique_idx(First|Last)+vsorted_unique ty={} be={} xs={}", ty, be, s);
     em.case("exact", &uniq_tags("opt_i32", "vec", xs), &desc("Option<i32>", "vec", format!("{:?}", vi)), term_z,
         || uniq_impl!(vi.clone(), opt_i32_cell));
@@ -406,7 +424,7 @@ fn uniq_cases(em: &mut Emitter) {
                     xs.extend(vs.iter().map(|v| Some(*v)));
                     xs.extend(std::iter::repeat(None).take(trail));
                     k += 1;
-                    uniq_emit(em, &xs, &si, &sf, k);
+                    uniq_emit(em, &xs, &si, &sf, k, k % 4 != 0);
                 });
             }
         }
@@ -421,7 +439,7 @@ fn uniq_cases(em: &mut Emitter) {
             let trail = xs.iter().rev().take_while(|x| x.is_none()).count();
             if lead == len || !xs[lead..len - trail].iter().any(|x| x.is_none()) { return }
             k += 1;
-            uniq_emit(em, &xs, &si, &sf, k);
+            uniq_emit(em, &xs, &si, &sf, k, k % 4 != 0);
         });
     }
     // (3) long sorted series: runs of every length, null blocks, extremes; f64 with +-inf and -0.0 next to 0.0
@@ -444,7 +462,7 @@ fn uniq_cases(em: &mut Emitter) {
         let si2 = |v: i64| match v { -6 => i32::MIN, -5 => i32::MIN + 1, 5 => i32::MAX - 1, 6 => i32::MAX, _ => v as i32 };
         let sf2 = |v: i64| match v { -6 => f64::NEG_INFINITY, -5 => f64::MIN, 5 => f64::MAX, 6 => f64::INFINITY, 0 => 0.0, _ => v as f64 / 4.0 };
         k += 1;
-        uniq_emit(em, &xs, &si2, &sf2, k);
+        uniq_emit(em, &xs, &si2, &sf2, k, false);
     }
     // -0.0 == 0.0 is one run for f64 (PartialEq), represented by its first element
     for vf in [vec![-0.0, 0.0, 0.0, 1.0], vec![0.0, -0.0, 1.0, 1.0], vec![f64::NAN, -0.0, 0.0, f64::NAN]] {
